@@ -67,6 +67,8 @@ func runC03(c *Ctx) {
 		})
 		// "never answers a replay": the replay filter's own rules
 		importObls(c, "C11", runC11, "X11", func(k string) bool { return true })
+		// ... and the filter is stamped with the clock read at verification, inside the critical section
+		importObls(c, "C04", runC04, "X04", func(k string) bool { return containsAny(k, "#stamped-in-filter-order", "#TestAndSet-now") })
 	}
 	p := c.P
 	wrap := obfs4WrapConn(c)
